@@ -94,6 +94,13 @@ theorem expected_eq_value {K : Type} [Lean.Grind.CommRing K] (o : UV.Out K) (F :
   unfold expected UV.Out.value UV.Out.arg1 mulAlg
   cases hc : fl.conv <;> cases hp : fl.post <;> cases hm : fl.mulNe1 <;> simp_all <;> grind
 
+/-- non-vacuity of the hypotheses of `expected_eq_value` / `buffer_program_refines_value`: a rescaling call with
+    `out=` (2 km + 500 m: `conv` runs, no post-multiplication, coefficient 1) -/
+example : ∃ (o : UV.Out Int) (coef : Coef → Int) (fl : Flags), fl.tdelta = false ∧ coef .conv = o.conv ∧ coef .post = o.post
+    ∧ coef .mul = o.mul ∧ (fl.conv = false → o.conv = 1) ∧ (fl.post = false → o.post = 1) ∧ (fl.mulNe1 = false → o.mul = 1) :=
+  ⟨⟨none, 3, 1, 1, none⟩, fun c => match c with | .conv => 3 | _ => 1, ⟨true, false, false, true, false, false, false⟩,
+    by decide⟩
+
 /-- the two together: under any aliasing, the live statement list returns `Out.value` and stores it in `out=` -/
 theorem buffer_program_refines_value {K : Type} [Lean.Grind.CommRing K] (o : UV.Out K) (F : K → K → K)
     (coef : Coef → K) (fl : Flags) (c0 c1 c2 : K) (l0 l1 lo : Nat) (h0 : l0 < 3) (h1 : l1 < 3) (ho : lo < 3)
